@@ -105,6 +105,13 @@ func (n *decoratorNode) Call(s containerStore) (err error) {
 	}
 
 	n.state = decoratorOnStack
+	defer func() {
+		// A decorator that failed was not applied: it must be
+		// tried again the next time it is needed.
+		if n.state != decoratorCalled {
+			n.state = decoratorReady
+		}
+	}()
 
 	if err := shallowCheckDependencies(s, n.params); err != nil {
 		return errMissingDependencies{
